@@ -133,6 +133,7 @@ def unpack_rows(ints, cols: int):
 
 def run_spec(spec: dict) -> dict:
     """One real call `make(...)(shape, seed=…, return_acs=…)`; JSON-able result.
+    (`spec["op"]` selects the other watchdogged entry points: "circus_disc", "bisect_script".)
 
     result: {"ok": True, "shape": [...], "dtype": "torch.bool", "cols": n, "rows": [packed…], "draws": [...],
              "libc_seeds": [...]} or {"ok": False, "err": "ValueError", "msg": "…", "draws": [...]}"""
@@ -140,6 +141,10 @@ def run_spec(spec: dict) -> dict:
     import torch
 
     S = _S()
+    if spec.get("op") == "circus_disc":
+        return _run_circus_disc(S, spec)
+    if spec.get("op") == "bisect_script":
+        return _run_bisect_script(S, spec)
     out: dict = {"ok": False}
     rng = None
     try:
@@ -169,6 +174,55 @@ def run_spec(spec: dict) -> dict:
         out = {"ok": False, "err": type(e).__name__, "msg": str(e)[:200]}
     out["draws"] = rng.log if rng is not None else []
     return out
+
+
+def _run_circus_disc(S, spec: dict) -> dict:
+    """`CIRCUSMaskFunc.circular_centered_mask(mask)` on a packed boolean mask."""
+    import torch
+
+    rows, cols = spec["rows"], spec["cols"]
+    try:
+        m = torch.from_numpy(unpack_rows(spec["mask"], cols).reshape(rows, cols))
+        r = S.CIRCUSMaskFunc.circular_centered_mask(m)
+        return {"ok": True, "shape": list(r.shape), "dtype": str(r.dtype), "rows": pack_rows(r.numpy(), cols)}
+    except Exception as e:  # noqa: BLE001
+        return {"ok": False, "err": type(e).__name__, "msg": str(e)[:200]}
+
+
+def _run_bisect_script(S, spec: dict) -> dict:
+    """`VariableDensityPoissonMaskFunc.poisson` with the rasterisation kernel `_poisson` replaced by a
+    scripted stand-in: the k-th evaluation produces a mask whose acceleration is within tolerance /
+    too low / too high as `script[k]` says (0 / 1 / 2; `2` after the script ends).  Returns the number
+    of evaluations and the last slope (exact: read back from `radius_x` at a cell with r = 1)."""
+    import numpy as np
+
+    n, acc, script = spec["n"], spec["acc"], list(spec["script"])
+    f = make("VariableDensityPoisson", "static", acc, 1e-9, **spec.get("extra", {}))
+    state = {"calls": 0, "slope": None}
+    target = n * n // acc
+
+    def fake(nx, ny, max_attempts, mask, rx, ry, seed):
+        k = state["calls"]
+        state["calls"] += 1
+        state["slope"] = float(rx[0, ny // 2]) - 1.0
+        v = script[k] if k < len(script) else 2
+        flat = mask.reshape(-1)
+        if v == 0:
+            flat[:target] = 1
+        elif v == 1:
+            flat[:] = 1
+        else:
+            flat[:1] = 1
+
+    old = S._poisson
+    S._poisson = fake
+    try:
+        f.poisson(n, n, 1e-9, acc, 0)
+        return {"ok": True, "calls": state["calls"], "slope": state["slope"]}
+    except Exception as e:  # noqa: BLE001
+        return {"ok": False, "err": type(e).__name__, "msg": str(e)[:200], "calls": state["calls"]}
+    finally:
+        S._poisson = old
 
 
 # --------------------------------------------------------------------------------------------------
@@ -361,7 +415,12 @@ def feasible(name: str, rows: int, cols: int, acc, cf) -> bool:
     if r < 1:
         return False
     L = disc_count(rows, cols, r)
-    return L * acc < rows * cols and (rows * cols / acc - L) >= 1
+    if not (L * acc < rows * cols and (rows * cols / acc - L) >= 1):
+        return False
+    if name == "KtRadial":   # at least one beam: int(rate * mean(rows, cols)) >= 1
+        adjusted = (acc * (L - rows * cols)) / (L * acc - rows * cols)
+        return int((1 / adjusted) * ((rows + cols) / 2)) >= 1
+    return True
 
 
 def sample_shape(rng, name: str, mode: str, rank=None, small=False):
